@@ -276,28 +276,35 @@ ALL = [f"C{i:02d}" for i in range(1, 21)]
 
 # clauses added in the later rounds of seeded changes (appended to the level text of the claim)
 LATER = {
-    "C03": " Also: request text kept in a table of the protocol (the header table) stays request text when read back; values parsed "
+    "C01": " Also: start-up rewrites the document root to '/' only where chroot has succeeded; content that passed the filter is "
+           "looked up only when it also starts with '/' (root and selector are joined as text).",
+    "C11": " Also: nothing on the failure path of a cache load formats with request text as the format string.",
+    "C05": " Also: WAP recognition followed by handle() takes the prefix off once (evaluated in that order).",
+    "C14": " Also: what a worker thread runs on the shared server object only reads it.",
+    "C03": " Also: the not-found exception's text is total (evaluated on selectors with % and braces); request text is never a format "
+           "string. Also: request text kept in a table of the protocol (the header table) stays request text when read back; values parsed "
            "from it into date/number objects are ordered only under a guard.",
     "C04": " Also: document bytes reach the client through the response file object only (no fileno()/sendfile/os.write below "
-           "the TLS layer); the MIME tables are asked about selectors, not bare names.",
+           "the TLS layer); the MIME tables are asked about selectors, not bare names; a file is a mailbox only if its first line is an "
+           "mbox envelope line (evaluated).",
     "C06": " Also: no program run for a request is read in text mode; a request body is read to its announced length.",
     "C07": " Also: the ignore pattern is applied to the whole name from its start; link files are decoded like directory names; "
-           "ordinary one-letter and dotted names pass the selector filter (evaluated).",
+           "ordinary one-letter and dotted names pass the selector filter (evaluated); no set is iterated on the listing path.",
     "C09": " Also: which requests are rendered from a gophermap (directory holding one, regular *.gophermap file) is evaluated on "
            "stat/selector scenarios.",
     "C10": " Also: nothing touches the cache file's time stamp except a save.",
-    "C12": " Also: the log routine used by the not-found exception is total on texts with format characters (evaluated).",
+    "C12": " Also: the log routine used by the not-found exception is total on texts with format characters, and so is the exception's own text (evaluated).",
     "C15": " Also: entries are populated through the handler's own file-system view; the block of an empty or blank side file "
            "is rendered (getblock evaluated with the real accessors).",
     "C16": " Also: entries inside an archive are populated through the archive view; members are opened by the name the index "
-           "gave, not by the request path.",
-    "C17": " Also: tal:define statements are evaluated in order, each local unless it says global (compiler evaluated).",
+           "gave, not by the request path; the archive view keeps no module-level tables between requests.",
+    "C17": " Also: tal:define statements are evaluated in order, each local unless it says global (compiler evaluated); a path step the value does not have is a missing path (evaluated).",
     "C18": " Also: attribute values are taken as html.parser hands them over on every interpreter from 3.7 on (version test and "
            "start-tag callback evaluated for nine interpreter versions).",
     "C19": " Also: no privileged call sits in a with block whose manager can swallow an exception (suppress, ExitStack callbacks "
            "that can return true, repo managers).",
     "C20": " Also: no context manager of the server swallows what is raised in its block; the connection handler's output file is "
-           "unbuffered or flushed inside its try, so a write error cannot surface in finish().",
+           "unbuffered or flushed inside its try, so a write error cannot surface in finish(); SIGPIPE stays ignored.",
 }
 
 
